@@ -240,6 +240,11 @@ func (f *FuncCFG) mentions(n ast.Node, blk *cfg.Block, out map[string]bool, seen
 		return
 	}
 	inspectNoLit(n, func(x ast.Node) bool {
+		if u, ok := x.(*ast.UnaryExpr); ok && u.Op == token.ARROW {
+			if cid, ok := ast.Unparen(u.X).(*ast.Ident); ok {
+				out["recv:"+cid.Name] = true
+			}
+		}
 		id, ok := x.(*ast.Ident)
 		if !ok {
 			return true
